@@ -77,6 +77,17 @@ CHECKS["C13"] = dict(
    note="Trusted: reference parser; strings without CR only.",
    design="5/C13")
 
+CHECKS["C14"] = dict(
+   technique="complete enumeration of byte-string families for cells and column names, structured float families, degenerate frames; JSON token-stream oracle and ReadJSON round trip",
+   text="String/enum cells and column names over every single byte, every 2- and 3-byte (thorough: 4-byte) combination of a 12-byte risk alphabet, line/paragraph separators, multi-byte runes and malformed UTF-8; floats over every exponent with structured mantissas, small decimals and powers of ten with neighbours, NaN; integer extremes; zero rows and zero columns; five index shapes. The output must be valid JSON whose token stream has one object per row in row order with keys in column order and values equal to the cells (invalid bytes as U+FFFD, floats bit-identical), and ReadJSON must reproduce the frame where JSON can carry it.",
+   note="Trusted: encoding/json tokenizer. ReadJSON inversion asserted for valid UTF-8, NaN-free floats, >= 1 row.",
+   design="5/C14")
+CHECKS["C16"] = dict(
+   technique="complete enumeration of finite float64 families x destination-buffer states against strconv.FormatFloat (the statement's specification)",
+   text="Every biased exponent x ~220 structured mantissas x both signs, every integer up to 2^20 (2^22) with both neighbours, every power of two/ten with +-3 ulp, every decimal d*10^k with d <= 999 (9999), and in thorough all 2^32 float32 values widened to float64, each formatted by the real AppendFloat64f into four buffer states (nil, dirty spare capacity, exactly fitting prefix, prefix with dirty spare capacity) and through ToJSON; output must equal strconv.FormatFloat(f,'f',-1,64) after an untouched prefix and parse back to the identical bits.",
+   note="exhaustive refers to the listed families (about 2^32 of the 2^64 bit patterns in thorough); values outside them are not covered.",
+   design="5/C16")
+
 NOT_YET = {}
 BASELINE_CMD = "for m in $(cat /w/out/gomods.txt); do MF=$(cd /repo/$m && . /w/out/goenv.sh && gomodflag); (cd /repo/$m && go test $MF -json -vet=off -count=1 -timeout 25m ./...); done"
 
